@@ -3,7 +3,8 @@ import Ark.Props.C11
 import Ark.Props.C01World
 import Ark.Props.C01Hist
 import Ark.Props.C01Struct
-import Ark.Proofs.GenBridge
+import Ark.Proofs.GenBridge.Table
+import Ark.Props.C01Refine
 
 namespace Ark.Props.C01
 open Ark Ark.World
@@ -104,5 +105,41 @@ theorem struct_findOrCreateTableAdd : type_of% @Ark.SInv.findOrCreateTableAdd_sp
 
 /-- adding a component that is already present is rejected without effect -/
 theorem struct_add_rejects_present : type_of% @Ark.Props.C01Struct.findOrCreateTableAdd_rejects := @Ark.Props.C01Struct.findOrCreateTableAdd_rejects
+
+
+/-! ## refinement to the specification map (Props/C01Refine): every history of register / new / add /
+    remove / set / remove-entity operations on non-relation components, from the initial world, is
+    simulated by the obvious map `handle ↦ component ↦ value`; rejected calls change nothing -/
+
+theorem refine_reach_cinv : type_of% @Ark.Props.C01Refine.reach_cinv := @Ark.Props.C01Refine.reach_cinv
+
+theorem refine_registry_agrees : type_of% @Ark.Props.C01Refine.registry_agrees := @Ark.Props.C01Refine.registry_agrees
+
+theorem refine_refines : type_of% @Ark.Props.C01Refine.refines := @Ark.Props.C01Refine.refines
+
+theorem refine_refines_absent : type_of% @Ark.Props.C01Refine.refines_absent := @Ark.Props.C01Refine.refines_absent
+
+theorem refine_sortedIds_sorted : type_of% @Ark.Props.C01Refine.sortedIds_sorted := @Ark.Props.C01Refine.sortedIds_sorted
+
+theorem refine_alive_iff_specified : type_of% @Ark.Props.C01Refine.alive_iff_specified := @Ark.Props.C01Refine.alive_iff_specified
+
+theorem refine_unspecified_dead : type_of% @Ark.Props.C01Refine.unspecified_dead := @Ark.Props.C01Refine.unspecified_dead
+
+theorem refine_spec_handles_nodup : type_of% @Ark.Props.C01Refine.spec_handles_nodup := @Ark.Props.C01Refine.spec_handles_nodup
+
+theorem refine_rejected : type_of% @Ark.Props.C01Refine.rejected := @Ark.Props.C01Refine.rejected
+
+theorem refine_accepted : type_of% @Ark.Props.C01Refine.accepted := @Ark.Props.C01Refine.accepted
+
+theorem refine_frame : type_of% @Ark.Props.C01Refine.frame := @Ark.Props.C01Refine.frame
+
+theorem refine_frame_world : type_of% @Ark.Props.C01Refine.frame_world := @Ark.Props.C01Refine.frame_world
+
+theorem refine_last_write_wins_set : type_of% @Ark.Props.C01Refine.last_write_wins_set := @Ark.Props.C01Refine.last_write_wins_set
+
+theorem refine_last_write_wins_add : type_of% @Ark.Props.C01Refine.last_write_wins_add := @Ark.Props.C01Refine.last_write_wins_add
+
+theorem refine_lastVal_spec : type_of% @Ark.Props.C01Refine.lastVal_spec := @Ark.Props.C01Refine.lastVal_spec
+
 
 end Ark.Props.C01
